@@ -114,7 +114,7 @@ OpFits(k, c, es, rs, e) ==
     [] e.op = "add_hart_info" -> 12 + 4 * (1 + NCalls(e, "with_cmo")) <= 65535
     [] k = "VIOT" /\ IsAdd(e) ->                         \* 16-bit node count and 16-bit node offsets
          /\ NAdds(es) + 1 <= 65535
-         /\ 48 + FoldLeft(LAMBDA acc, x : acc + (IF x.op \in {"add_pci_range", "add_mmio_endpoint"} THEN 24 ELSE 16), 0, es) <= 65535
+         /\ 48 + FoldLeft(LAMBDA acc, x : acc + (IF x.op \in {"add_pci_range", "add_mmio_endpoint"} THEN 24 ELSE IF IsAdd(x) THEN 16 ELSE 0), 0, es) <= 65535
          /\ (e.op \in {"add_virtio_pci_iommu"} => PciFits(e.a.pci))
          /\ (e.op = "add_pci_range" => PciFits(e.a.first) /\ PciFits(e.a.last))
     [] e.op = "add_imsic" -> ~HasOp(es, "add_imsic")
